@@ -83,8 +83,17 @@ func c10Check(c *C10Case, r *core.Rec) {
 	snap := snapFull(xs)
 	s := stats.Sample{Xs: xs}
 	if n == 0 {
-		if q := s.Quantile(0.5); !math.IsNaN(q) {
-			r.Fail("empty", "Quantile of an empty sample = %v, want NaN", q)
+		// NaN whatever the Sorted flag says, weighted or not, for every q; IQR likewise
+		for _, e := range []stats.Sample{s, {Xs: xs, Sorted: true}, {Xs: xs, Weights: []float64{}}, {Xs: xs, Weights: []float64{}, Sorted: true}, {Sorted: true}} {
+			for _, q := range []float64{-1, 0, 0.25, 0.5, 1, 2} {
+				if v := e.Quantile(q); !math.IsNaN(v) {
+					r.Fail("empty", "Quantile(%v) of an empty sample (Sorted=%v, weights=%v) = %v, want NaN", q, e.Sorted, e.Weights != nil, v)
+				}
+				r.Trans(1)
+			}
+			if v := e.IQR(); !math.IsNaN(v) {
+				r.Fail("empty", "IQR of an empty sample (Sorted=%v) = %v, want NaN", e.Sorted, v)
+			}
 		}
 		return
 	}
@@ -100,7 +109,13 @@ func c10Check(c *C10Case, r *core.Rec) {
 	tol := 4 * ref.Eps * float64(n+1) * ((hi - lo) + maxAbs)
 	slack := 2 * ref.Eps * maxAbs
 	prev := math.Inf(-1)
-	for _, q := range c10Qs(n) {
+	for qi, q := range c10Qs(n) {
+		// history: queries on other samples (larger, unsorted; and smaller) in between must
+		// leave no trace
+		if qi%3 == 0 {
+			c10Other.Quantile(0.37)
+			c10Small.Quantile(0.6)
+		}
 		got := s.Quantile(q)
 		r.Trans(1)
 		r.OutcomeF(got)
@@ -209,7 +224,11 @@ func c10Weighted(c *C10Case, r *core.Rec) {
 		return groups[len(groups)-1].x
 	}
 	prev := math.Inf(-1)
-	for _, q := range qs {
+	for qi, q := range qs {
+		if qi%3 == 0 {
+			c10OtherW.Quantile(0.37)
+			c10Other.Quantile(0.71)
+		}
 		got := s.Quantile(q)
 		r.Trans(1)
 		r.OutcomeF(got)
@@ -274,6 +293,23 @@ func c10Weighted(c *C10Case, r *core.Rec) {
 }
 
 var c10Alpha = []float64{-1, 0, 2, 7}
+
+// c10Other / c10Small are unrelated unsorted samples queried between the queries under test.
+var c10Other, c10Small = func() (stats.Sample, stats.Sample) {
+	xs := make([]float64, 257)
+	for i := range xs {
+		xs[i] = 1000 + float64((i*101)%257)
+	}
+	return stats.Sample{Xs: xs}, stats.Sample{Xs: []float64{-55, -77}}
+}()
+
+var c10OtherW = func() stats.Sample {
+	xs, ws := make([]float64, 131), make([]float64, 131)
+	for i := range xs {
+		xs[i], ws[i] = 500-float64((i*37)%131), float64(i%4+1)
+	}
+	return stats.Sample{Xs: xs, Weights: ws}
+}()
 
 func c10Run(c *core.Ctx) {
 	r := c.R
